@@ -18,7 +18,7 @@ import concurrent.futures as cf
 import vlib
 
 PID = 'C18'
-ALL_BODIES = ['ENCA', 'ENCB', 'ENCC', 'ENCD', 'ENCM', 'ENCT', 'ENCS', 'DECA', 'DECB', 'DECF', 'DECH', 'DECL', 'DECR', 'VFA', 'VFB', 'VFF', 'VFC', 'VFL', 'VFR', 'VLAP', 'VLAQ']
+ALL_BODIES = ['ENCA', 'ENCB', 'ENCC', 'ENCD', 'ENCM', 'ENCH', 'ENCW', 'ENCQ', 'ENCP', 'ENCT', 'ENCS', 'DECA', 'DECB', 'DECF', 'DECH', 'DECL', 'DECR', 'VFA', 'VFB', 'VFF', 'VFC', 'VFL', 'VFR', 'VLAP', 'VLAQ']
 CORE = ['ENCA', 'ENCB', 'DECA', 'DECB', 'DECF', 'VFA', 'VFB']
 BODY_DOC = {
     'ENCA': 'encoder stereo 44.1k VBR q0.4, 3x1024 samples', 'ENCB': 'encoder mono 8k, setup_managed+ctl+setup_init (bitrate managed)',
@@ -33,6 +33,9 @@ BODY_DOC = {
     'ENCS': 'subset of ENCT used as a concurrent body: 1/2 channels x (7 samples in one call, 32 samples in 3-sample pieces)',
     'VLAP': 'vorbisfile on the right-silent stereo stream (several audio pages): {pcm_seek_lap, pcm_seek_page_lap, time_seek_lap, time_seek_page_lap, raw_seek_lap, crosslap} x handle state {fresh, mid-read, after raw seek into the last page (EOF, no lap data), read to end of stream, after a rejected seek}, fresh handle per combination (30 g1 steps L<state><variant>)',
     'VLAQ': 'the same 30 lapped-seek combinations on the 2-link chain s1+left-silent stereo (lapping across links with different rate/channels)',
+    'ENCH': 'encoder stereo 96 kHz VBR q0.5, 0.3 s (psy look-ups reach beyond the end of the ATH table)', 'ENCW': 'encoder mono 64 kHz VBR q0.5, 0.3 s',
+    'ENCQ': 'encoder mono 44.1k whose last 4096 samples are a 2e-8 amplitude sine (end-of-stream LPC extrapolation takes its below-epsilon exit on non-zero data)',
+    'ENCP': 'encoder mono 44.1k whose first 6144 samples are a 2e-8 amplitude sine (pre-extrapolation LPC takes the same exit)',
     'DECL': 'packet decoder on coupled stereo with a digitally silent LEFT channel (unused floor on one side of a coupled pair)',
     'DECR': 'packet decoder on coupled stereo with a digitally silent RIGHT channel, with synthesis_restart',
     'VFL': 'vorbisfile (ov_read_float) on the left-silent stream', 'VFR': 'vorbisfile (ov_read, pcm_seek_lap) on the right-silent stream',
@@ -163,7 +166,7 @@ def run_valgrind(exe, st, body, timeout=900):
 # ------------------------------------------------------------------------------------------------ main
 def plan_jobs(tier):
     pairs = [list(c) for c in itertools.combinations_with_replacement(CORE, 2)]
-    extra_pairs = [['ENCC', 'ENCA'], ['ENCD', 'ENCB'], ['DECH', 'DECB'], ['VFF', 'DECF'], ['VFC', 'VFA'], ['ENCC', 'VFC'], ['DECL', 'DECR'], ['VFL', 'VFR'], ['DECL', 'VFL'], ['ENCM', 'ENCD'], ['ENCS', 'ENCS'], ['ENCS', 'ENCA'], ['ENCS', 'DECB']]
+    extra_pairs = [['ENCC', 'ENCA'], ['ENCD', 'ENCB'], ['DECH', 'DECB'], ['VFF', 'DECF'], ['VFC', 'VFA'], ['ENCC', 'VFC'], ['DECL', 'DECR'], ['VFL', 'VFR'], ['DECL', 'VFL'], ['ENCM', 'ENCD'], ['ENCS', 'ENCS'], ['ENCS', 'ENCA'], ['ENCS', 'DECB'], ['ENCW', 'ENCQ'], ['ENCH', 'DECA']]
     triples = [['ENCA', 'DECA', 'VFB'], ['ENCB', 'DECF', 'VFA'], ['DECA', 'DECA', 'DECB']]
     jobs = []
     if tier == 'quick':
@@ -223,7 +226,9 @@ def run(tier):
 
 def _run(chk, tier, t0, deadline, exe, texe, st):
     fixed = st + ['deadline=%d' % int(deadline)]
-    side_budget = (deadline - time.time()) + (22 if tier == 'quick' else 150)     # TSan / valgrind side passes are killed after this many seconds
+    side_budget = (deadline - time.time()) + (22 if tier == 'quick' else 150)     # TSan / valgrind side passes are killed this many seconds after the start,
+    kill_at = time.time() + side_budget                                            # no matter how long they waited in the queue of the side pool
+    left = lambda: max(2.0, kill_at - time.time())
     cov = chk.cov
     mach = []          # machinery errors: exit 2
 
@@ -232,14 +237,14 @@ def _run(chk, tier, t0, deadline, exe, texe, st):
     # (threads, repetitions per process, bodies, processes): every process start is a cold library (lazily built tables!)
     reps = 10 if tier == 'quick' else 15
     procs = 3 if tier == 'quick' else 5
-    tsan_base = [(16, reps, ALL_BODIES, procs), (8, reps, ['ENCA', 'ENCS'], procs), (8, reps, ['DECF', 'VFF', 'DECA', 'VFA', 'DECL', 'VFR'], procs), (12, reps, ['ENCB', 'ENCD', 'ENCM', 'DECB', 'DECH', 'VFB', 'VFC'], procs)]
+    tsan_base = [(16, reps, ALL_BODIES, procs), (8, reps, ['ENCA', 'ENCS', 'ENCW', 'ENCQ'], procs), (8, reps, ['DECF', 'VFF', 'DECA', 'VFA', 'DECL', 'VFR'], procs), (12, reps, ['ENCB', 'ENCD', 'ENCM', 'DECB', 'DECH', 'VFB', 'VFC'], procs)]
     if tier == 'thorough':
         tsan_base += [(16, reps, ['ENCA', 'ENCC', 'DECB', 'VFB'], procs), (2, 40, ['ENCA', 'DECB'], procs), (2, 40, ['DECA', 'DECA'], procs), (3, 40, ['VFA', 'DECA', 'ENCB'], procs)]
     tsan_cfgs = [(n, r, b) for n, r, b, k in tsan_base for _ in range(k)]
-    tsan_futs = [bg.submit(run_tsan, texe, st, n, r, b, side_budget) for n, r, b in tsan_cfgs]
-    self_fut = bg.submit(lambda: subprocess.run([texe, '--selfrace'], env=dict(os.environ, **TSAN_ENV), stdout=subprocess.PIPE, stderr=subprocess.PIPE, text=True, timeout=120))
+    self_fut = bg.submit(lambda: subprocess.run([texe, '--selfrace'], env=dict(os.environ, **TSAN_ENV), stdout=subprocess.PIPE, stderr=subprocess.PIPE, text=True, timeout=left()))   # first in the queue
+    tsan_futs = [bg.submit(lambda n=n, r=r, b=b: run_tsan(texe, st, n, r, b, left())) for n, r, b in tsan_cfgs]
     have_vg = subprocess.run('command -v valgrind', shell=True, stdout=subprocess.PIPE).returncode == 0
-    vg_futs = {b: bg.submit(run_valgrind, exe, st, b, side_budget) for b in ALL_BODIES} if have_vg else {}
+    vg_futs = {b: bg.submit(lambda b=b: run_valgrind(exe, st, b, left())) for b in ALL_BODIES} if have_vg else {}
 
     # ---------------- solo references + heap-fill reproducibility
     cases = [f'solo {b}' for b in ALL_BODIES] + [f'fill {b} {p}' for b in ALL_BODIES for p in FILLS] + [f'sfill {b} {w}' for b in ALL_BODIES for w in STACK_WORDS]
@@ -414,7 +419,7 @@ def _run(chk, tier, t0, deadline, exe, texe, st):
     tsan_killed = 0
     for (n, r, b), fut in zip(tsan_cfgs, tsan_futs):
         try:
-            rc, info, out, err = fut.result(timeout=side_budget + 60)
+            rc, info, out, err = fut.result(timeout=left() + 30)
         except Exception as e:
             mach.append(f'tsan pass {n}x{r} {b}: {e!r}')
             continue
@@ -433,13 +438,17 @@ def _run(chk, tier, t0, deadline, exe, texe, st):
             chk.violation('free:digest' if info.get('mismatches', 0) else 'free:fenv', f"free-running threads ({n} x {r}, {'+'.join(b)}): {out.strip()[:400]}", rp_)
         elif rc not in (0, 66) or not info:
             chk.violation('free:crash', f"free-running threads ({n} x {r}, {'+'.join(b)}) died rc={rc}: {err[-600:]}", rp_)
-    sp = self_fut.result(timeout=300)
-    tsan_self = (sp.returncode == 66 and 'g_racy' in sp.stderr)
+    try:
+        sp = self_fut.result(timeout=left() + 30)
+        tsan_self = (sp.returncode == 66 and 'g_racy' in sp.stderr)
+    except Exception as e:
+        tsan_self = False
+        mach.append(f'TSan self-test did not finish: {e!r}')
     cov['tsan'] = {'passes': tsan_info, 'reports': tsan_reports_n, 'passes_killed_at_budget': tsan_killed, 'engine_selftest_detects_seeded_harness_race': tsan_self}
     vg = {}
     for b, fut in vg_futs.items():
         try:
-            rc, out, err = fut.result(timeout=side_budget + 60)
+            rc, out, err = fut.result(timeout=left() + 30)
         except Exception as e:
             mach.append(f'valgrind {b}: {e!r}')
             continue
